@@ -5,7 +5,7 @@ BOUNDS = {
              'element values, object bytes before construction symbolic, positions / counts / new sizes symbolic (case-split); histories of 2 symbolic operations at capacity 2: '
              'static_vector from pre-size 1, one query per first operation (12 op codes), inplace_vector from every pre-size (6 op codes), copy+move elements',
     'thorough': 'copy+move elements at capacities 0..3 with every (NA, NB) and at capacity 4 with NB in {0,4}; move-only and copy-only elements at capacity 3 (NB in {0,1,3}), defaulted-assignment elements at capacity 2 (every NB); '
-                'static_vector histories of 2 operations at capacity 2 (copy+move from pre-sizes 0 and 1, and from 2 with pop_back / clear / relocation first; the other flavours from pre-size 1) and of 3 operations at capacity 1 from the empty vector (copy+move), one query per admissible first operation; '
+                'static_vector histories of 2 operations at capacity 2 (copy+move from pre-sizes 0 and 1, and from 2 with pop_back / clear / relocation first; the other flavours from pre-size 1) and of 3 operations at capacity 1 from the empty vector (copy+move), one query per admissible first operation except first operations 5, 8, 9 (no verdict within the 8 GB per-query memory cap); '
                 'inplace_vector histories of 3 operations at capacity 2 from pre-size 1 (all flavours) and of 2 at capacity 3 from every pre-size',
 }
 ASSUMPTIONS = [
@@ -72,7 +72,7 @@ def queries(tier, prop='C03'):
         grid = [(0, 0, (0,)), (0, 1, (0, 1)), (0, 2, (0, 1, 2)), (0, 3, (0, 1, 2, 3)), (0, 4, (0, 4)), (1, 3, (0, 1, 3)), (2, 3, (0, 1, 3)), (3, 2, (0, 1, 2))]
         hist = [('q_sv_hist', 0, 2, 2, na, f) for na in (0, 1) for f in range(nops[0])] + [('q_sv_hist', fl, 2, 2, 1, f) for fl in (1, 2) for f in range(nops[fl])]
         hist += [('q_sv_hist', 0, 2, 2, 2, f) for f in (1, 4, 7)]   # from the full vector: pop_back / clear / relocate first (the other first operations exceed the memory budget there)
-        hist += [('q_sv_hist', 0, 1, 3, 0, f) for f in range(nops[0])]
+        hist += [('q_sv_hist', 0, 1, 3, 0, f) for f in range(nops[0]) if f not in (5, 8, 9)]   # first operations 5, 8, 9: the 3-step query exceeds the 8 GB per-query memory cap (no verdict): outside the bound
         hist += [('q_iv_hist', fl, 2, 3, 1, None) for fl in (0, 1, 2)] + [('q_iv_hist', 0, 3, 2, na, None) for na in (0, 1, 2, 3)]
     # a first operation whose precondition cannot hold in the pre-state has no admissible history: 0/2/6 append or insert (need !full), 1 pop_back (needs !empty)
     hist = [h for h in hist if h[5] is None or not ((h[5] in (0, 2, 6) and h[4] >= h[2]) or (h[5] == 1 and h[4] == 0))]
@@ -95,7 +95,7 @@ def queries(tier, prop='C03'):
     for (e, fl, cap, k, na, first) in hist:
         cfg = {'FLAV': fl, 'CAP': cap, 'NA': na, 'NB': 0, 'KSTEPS': k, 'LG_SLOTS': 2 * cap + 2}
         if first is not None: cfg['FIRST'] = first
-        out.append(dict(entry=e, cfg=cfg, unwind=cap + 3, unwindset=uw(cap * 8 + 18), object_bits=14,
+        out.append(dict(entry=e, cfg=cfg, unwind=cap + 3, unwindset=uw(cap * 8 + 18), object_bits=14, solver='minisat',   # histories: minisat (cadical ran out of the 8 GB cap on the 3-step ones)
                         budget=300 if tier == 'quick' else 2400, ub=ub, nofunc=ub))
     for q_ in out:
         q_.setdefault('solver', ['cadical', 'minisat'])
